@@ -192,7 +192,7 @@ GAPS = [0, 0, 0, 1, 2, 100, 125, 126, 127, 128, 129, 200, 254, 255, 256, 70000, 
 
 
 @st.composite
-def quic_steps(draw, max_steps=12, key_updates=True, cids=True, zero_cid=False):
+def quic_steps(draw, max_steps=12, key_updates=True, cids=True, zero_cid=False, dups=True):
     """application-phase history: mostly datagrams that carry STREAM data (so that the export has something to get wrong)"""
     steps = []
     n = draw(st.integers(2, max_steps))
@@ -208,6 +208,8 @@ def quic_steps(draw, max_steps=12, key_updates=True, cids=True, zero_cid=False):
             steps.append({"op": "usecid", "d": d, "i": draw(st.integers(0, 5))})
         elif k == 6 and cids and draw(st.integers(0, 2)) == 0:
             steps.append({"op": "rebind"})
+        elif k == 7 and dups and draw(st.integers(0, 1)) == 0:
+            steps.append({"op": "dup", "d": d})
         elif k == 5:
             steps.append({"op": "ping", "d": d, "gap": draw(st.sampled_from(GAPS)), "pnl": draw(st.sampled_from([0, 0, 1, 2]))})
         else:
@@ -239,7 +241,7 @@ def quic_steps(draw, max_steps=12, key_updates=True, cids=True, zero_cid=False):
 
 
 @st.composite
-def quic_conn(draw, max_steps=12, zero_cid=True, early=True, retry=True, offered_any=True, ep=None, cids=True, key_updates=True):
+def quic_conn(draw, max_steps=12, zero_cid=True, early=True, retry=True, offered_any=True, ep=None, cids=True, key_updates=True, dups=True):
     suite = draw(st.sampled_from([0x1301, 0x1302, 0x1303, 0x1304]))
     others = draw(st.lists(st.sampled_from([0x1301, 0x1302, 0x1303, 0x1304, 0x0A0A, 0x1305, 0xC02F, 0xFAFA]), max_size=4))
     others = [o for o in others if o != suite]
@@ -266,7 +268,7 @@ def quic_conn(draw, max_steps=12, zero_cid=True, early=True, retry=True, offered
     spec["token_len"] = draw(st.sampled_from([0, 0, 1, 24, 63, 64, 65, 80, 300]))      # 64 is where the token-length varint grows to 2 bytes
     if draw(st.booleans()):
         spec["split_chunk"] = draw(st.sampled_from([61, 97, 128]))       # fixed cut offsets, shared by all connections of a capture
-    spec["steps"] = draw(quic_steps(max_steps, key_updates=key_updates, cids=cids))
+    spec["steps"] = draw(quic_steps(max_steps, key_updates=key_updates, cids=cids, dups=dups))
     spec["ep"] = draw(ep if ep is not None else endpoints())
     return spec
 
